@@ -83,6 +83,7 @@ fn collect_all_contract<const DA: bool, const DB: bool>() {
 // ---------------------------------------------------------------------------------------------------------------
 fn signal_contract<const CLONES: usize>() {
     let despawner = AutoDespawner::new();
+    assert!(despawner.sender.verif_capacity().is_none(), "AutoDespawner::new: the request channel is unbounded (a despawn request is never lost or blocked, however many are pending)");
     let e = Entity::verif_new(kani::any(), kani::any());
     let other = Entity::verif_new(77, 1);
     let first = despawner.prepare(e);
